@@ -269,6 +269,8 @@ func (m *Muxer) WriteData(d *MuxerData) (int, error) {
 		}
 
 		if pkt.Header.HasPayload {
+			// The continuity counter value is given back when nothing of the packet reaches the writer
+			ccBefore := ctx.cc
 			pkt.Header.ContinuityCounter = uint8(ctx.cc.inc())
 			m.buf.Reset()
 			if d.PES.Header.StreamID == 0 {
@@ -283,6 +285,7 @@ func (m *Muxer) WriteData(d *MuxerData) (int, error) {
 				bytesAvailable,
 			)
 			if err != nil {
+				ctx.cc = ccBefore
 				return bytesWritten, err
 			}
 
@@ -304,6 +307,9 @@ func (m *Muxer) WriteData(d *MuxerData) (int, error) {
 
 			n, err = m.writePacket(&pkt)
 			if err != nil {
+				if n == 0 {
+					ctx.cc = ccBefore
+				}
 				return bytesWritten, err
 			}
 
@@ -391,12 +397,21 @@ func (m *Muxer) WriteTables() (int, error) {
 
 	n, err := m.w.Write(m.patBytes.Bytes())
 	if err != nil {
+		// Nothing of the tables has reached the writer: they haven't consumed anything
+		if n == 0 {
+			rollback()
+		}
 		return bytesWritten, err
 	}
 	bytesWritten += n
 
 	n, err = m.w.Write(m.pmtBytes.Bytes())
 	if err != nil {
+		// The PAT has been written, nothing of the PMT has: what the PMT consumed is given back
+		if n == 0 {
+			m.pmtVersion, m.pmtCC, m.pmtUpdated = pmtVersion, pmtCC, pmtUpdated
+			m.pmtBytes.Reset()
+		}
 		return bytesWritten, err
 	}
 	bytesWritten += n
